@@ -17,10 +17,10 @@ func init() { register("C13", c13) }
 func c13(c *core.Check) {
 	c.Explain = "Thin: structural necessary conditions of a consistent table grid, decided on the SSA form and the syntax tree: (R1) a cell spans at least one column and a non-negative number of rows; (R2) the slot assignment of wrapTable gives each cell the first column not occupied by a row-spanning cell, advances the cursor by the cell's colspan, clamps rowspan to the rows left in the group (0 meaning all of them) and marks exactly the columns of the cell as occupied in the spanned rows — so two cells never receive the same slot; (R3) the side-mirrored assignments, the box-edge sums and the named arguments of the table layout code are consistent. Column width distribution, row heights, border-spacing arithmetic and the equalities between cell edges are numerical relations between runtime values and are not decided. Also decided: (R4) border-spacing is read only in the separated-borders model; (R5) the spacing term of a spanning cell counts the columns actually spanned; (R6) a row's bottom edge is computed from its final height. Also decided: (R9) the edge cells are padded down to is the row's own bottom; (R10) the fixed layout divides no possibly negative width among columns; (R11) the spacings counted in the table's width and those laid between the columns are counted the same way."
 	_ = c.Prog
-	r1 := c.Rule("R1", "NewTableCellBox reads colspan within [1, 1000] and rowspan within [0, 65534] (HTML)", 5)
+	r1 := c.Rule("R1", "NewTableCellBox reads colspan within [1, 1000] and rowspan within [0, 65534] (HTML)", 4)
 	spanBounds(c, r1)
 
-	r2 := c.Rule("R2", "wrapTable's slot assignment: GridX is the cursor after skipping the columns occupied in this row; the cursor then advances by Colspan; Rowspan is clamped to the rows left in the group (all of them for 0); the columns marked as occupied in the spanned rows are those from GridX to GridX+Colspan", 5)
+	r2 := c.Rule("R2", "wrapTable's slot assignment: GridX is the cursor after skipping the columns occupied in this row; the cursor then advances by Colspan; Rowspan is clamped to the rows left in the group (all of them for 0); the columns marked as occupied in the spanned rows are those from GridX to GridX+Colspan", 3)
 	tableSlotRule(c, r2)
 
 	c13Spacing(c)
@@ -40,7 +40,7 @@ func c13(c *core.Check) {
 	c13GroupExtentInGrid(c)
 	c13SpacingAxis(c)
 
-	r3 := c.Rule("R3", "the table layout code mirrors its side-symmetric assignments, sums margins, paddings and borders with consistent sides, and passes its named arguments in order", 8)
+	r3 := c.Rule("R3", "the table layout code mirrors its side-symmetric assignments, sums margins, paddings and borders with consistent sides, and passes its named arguments in order", 7)
 	tfiles := map[string]bool{"tables.go": true}
 	sideSymmetryRule(c, r3, "html/layout", tfiles, 0)
 	sideSumRule(c, r3, "html/layout", tfiles, 1)
@@ -267,7 +267,7 @@ func tableSlotRule(c *core.Check, r2 *core.Rule) {
 // c13Spacing: border-spacing only exists in the separated-borders model.
 func c13Spacing(c *core.Check) {
 	p := c.Prog
-	r := c.Rule("R4", "border-spacing applies to the separated-borders model only (CSS 2.1 §17.6.1): every read of the border-spacing property in the layout, box and drawing code is unreachable when the border-collapse value tested in the same function is `collapse` (otherwise collapsed tables are laid out with gaps that are not drawn, and spanning cells no longer cover their columns)", 4)
+	r := c.Rule("R4", "border-spacing applies to the separated-borders model only (CSS 2.1 §17.6.1): every read of the border-spacing property in the layout, box and drawing code is unreachable when the border-collapse value tested in the same function is `collapse` (otherwise collapsed tables are laid out with gaps that are not drawn, and spanning cells no longer cover their columns)", 2)
 	n := 0
 	for _, pkg := range []string{"html/layout", "html/document", "html/boxes"} {
 		for _, fn := range p.FuncsOfPkg(pkg) {
@@ -458,7 +458,7 @@ func instrDominates(a, b ssa.Instruction) bool {
 // c13RowBottom: the bottom edge of a row is computed from its final height.
 func c13RowBottom(c *core.Check) {
 	p := c.Prog
-	r := c.Rule("R6", "cells of a row share the row's height: where tableLayout computes the bottom edge of a row as PositionY + Height, the height read is the final one — no assignment of that row's Height can follow the read within the same iteration (cells are padded down to this edge)", 3)
+	r := c.Rule("R6", "cells of a row share the row's height: where tableLayout computes the bottom edge of a row as PositionY + Height, the height read is the final one — no assignment of that row's Height can follow the read within the same iteration (cells are padded down to this edge)", 1)
 	n := 0
 	for _, fn := range p.FuncsOfPkg("html/layout") {
 		root := fn
@@ -535,7 +535,7 @@ func c13RowBottom(c *core.Check) {
 // c13CellX: where a cell starts, and how an excess width is shared.
 func c13CellX(c *core.Check) {
 	p := c.Prog
-	r := c.Rule("R7", "cells start on their columns and shares add up: in tableLayout a cell's PositionX is the position of column GridX in a left-to-right table and of column GridX + Colspan − 1 in a right-to-left one, read from ColumnPositions without further arithmetic (the positions already contain the spacing); and where an excess width is divided by the number of columns of a list, the quotient is added to every column of that list (one per iteration, unconditionally)", 5)
+	r := c.Rule("R7", "cells start on their columns and shares add up: in tableLayout a cell's PositionX is the position of column GridX in a left-to-right table and of column GridX + Colspan − 1 in a right-to-left one, read from ColumnPositions without further arithmetic (the positions already contain the spacing); and where an excess width is divided by the number of columns of a list, the quotient is added to every column of that list (one per iteration, unconditionally)", 4)
 	leaf := func(v ssa.Value) string {
 		if ld, ok := v.(*ssa.UnOp); ok {
 			if fa, ok := ld.X.(*ssa.FieldAddr); ok {
@@ -715,7 +715,7 @@ func c13MinWidth(c *core.Check) {
 // c13PadEdge: the edge the cells of a row are padded down to is the bottom of that row.
 func c13PadEdge(c *core.Check) {
 	p := c.Prog
-	r := c.Rule("R9", "a spanning cell covers its slots: in tableLayout the edge from which the bottom of a cell is subtracted to pad it (extra = edge − cell bottom) is, on every path, the row's own PositionY or PositionY + Height — never the bottom of the tallest ending cell, which may be above the row", 3)
+	r := c.Rule("R9", "a spanning cell covers its slots: in tableLayout the edge from which the bottom of a cell is subtracted to pad it (extra = edge − cell bottom) is, on every path, the row's own PositionY or PositionY + Height — never the bottom of the tallest ending cell, which may be above the row", 1)
 	n := 0
 	for _, fn := range p.FuncsOfPkg("html/layout") {
 		root := fn
